@@ -260,13 +260,13 @@ def gen_pomdp(rng, abs_kind=None, smax=4, amax=3, omax=3, smin=1, amin=1, omin=1
     raise RuntimeError("gen_pomdp: no case")
 
 
-def gen_fsc(rng, nA, nO, style=None, nmax=3, om3=False):
+def gen_fsc(rng, nA, nO, style=None, nmax=3, om3=False, N=None):
     """om3: the node-transition strategy does not depend on the action; the case then also carries the
     3-d array p(n'|n,o) ("om3"), which is what the evaluator is given (its second accepted input form);
     "om" is always the 4-d p(n'|n,a,o) the model and the controller object use"""
     if style is None:
         style = rng.choice(["generic", "generic", "generic", "onehot_init", "shared", "det"])
-    N = rng.randint(2 if style in ("generic", "onehot_init") and rng.random() < .8 else 1, nmax)
+    N = N if N is not None else rng.randint(2 if style in ("generic", "onehot_init") and rng.random() < .8 else 1, nmax)
     onehot = lambda i, n: [F(int(j == i)) for j in range(n)]
     def tiny_pi_row():
         # an action (or node) weight of 2^-27 .. 2^-40: far below 1e-8, yet a history through it has positive probability
@@ -455,6 +455,10 @@ def gen_cases(rng, tier):
              "int_object": fc["style"] == "det"}
         if i % 18 == 5:
             c["long_run"] = 1500          # an episode far beyond 1000 steps
+        if i % 4 == 2 and fc["style"] not in ("tiny", "nondyadic"):
+            # one controller object: queried / executed, then ITS strategy tables are edited in place, then queried again;
+            # histories are judged against the tables' contents at that moment (read back from the object)
+            c["fsc_edit"] = gen_fsc(rng, pc["nA"], pc["nO"], style="generic", N=fc["N"])
         cases.append(c)
     n_bpi = 10 if tier == "quick" else 90
     for i in range(n_bpi):
@@ -497,6 +501,14 @@ def gen_cases(rng, tier):
         cases.append({"kind": "bpi", "pomdp": pc, "nodes": 2 + i % 2, "seed": i % 3 if tier == "quick" else rng.randint(0, 9),
                       "iterations": 30, "improve_fn": "matrix", "convergence_diff": ["1/100000", "1/100", "1"][i % 3],
                       "runs": 1, "run_seed": rng.randrange(10 ** 6), "max_steps": 5})
+    # gradient ascent at overshooting learning rates (1, 2): the last iterate is often not the best one seen; the reported
+    # value must still be the exact evaluation of the RETURNED controller
+    n_gal = 6 if tier == "quick" else 24
+    for i in range(n_gal):
+        pc = gen_pomdp(rng, abs_kind="none", smax=3, amax=2, omax=2, smin=2, amin=2, omin=2, dense=(True if i % 2 else False), labels=(i % 3 == 0))
+        cases.append({"kind": "ga", "pomdp": pc, "nodes": 1 + i % 3, "seed": i % 4 if tier == "quick" else rng.randint(0, 9),
+                      "iterations": [5, 12, 25][i % 3] if tier == "quick" else rng.randint(3, 40), "learning_rate": ["1", "2"][i % 2],
+                      "dtype": "float64", "runs": 1, "run_seed": rng.randrange(10 ** 6), "max_steps": 5})
     n_ga = 6 if tier == "quick" else 60
     for i in range(n_ga):
         kind = ["none", "benign", "paying"][i % 3]
@@ -749,6 +761,17 @@ def run(ctx):
             else:
                 terms.append("hi %s %s %s" % (pt, ft, nat(case.get("hist_len", 3))))
                 meta.append(("hi", i, None))
+                ed = res.get("edit")
+                if case.get("fsc_edit") and isinstance(ed, dict) and ed.get("done"):
+                    if not (all_num(ed["pi"]) and all_num(ed["om"]) and all_num(ed["init"])):
+                        report("C09:controller:nonfinite-tables-after-in-place-edit", {"case": case}, found=False)
+                    else:
+                        # semantics of the tables the object holds NOW (read back from it after the in-place edit)
+                        terms.append("hi %s %s %s" % (pt, fsc_term(len(ed["pi"]), ed["pi"], ed["om"], ed["init"]), nat(2)))
+                        meta.append(("hi", i, {"hist": ed["hist"], "after_edit": True}))
+                        feats["controller_tables_edited_in_place_then_requeried"] = feats.get("controller_tables_edited_in_place_then_requeried", 0) + 1
+                elif case.get("fsc_edit") and isinstance(ed, dict) and ed.get("error"):
+                    feats["controller_tables_not_editable"] = feats.get("controller_tables_not_editable", 0) + 1      # drift: read-only tables are fine
                 # the same controller held as torch tensors (what gradient ascent returns) must behave identically
                 ht = res.get("hist_torch2")
                 if isinstance(ht, dict) or (case.get("hist_len", 3) >= 2 and ht != res["hist"]["2"]):
@@ -942,13 +965,14 @@ def run(ctx):
                 report("C09:evaluator:expected-value-not-init-V-s0", {"case": case, "impl": res["eval"]}, found=True)
         elif kind == "hi":
             tabs, shared, det = v
-            fc = case["fsc"]
+            fc = case["fsc"] if not (extra or {}).get("after_edit") else case["fsc_edit"]
+            hist_src = (extra or {}).get("hist") or res["hist"]
             hist_total += 1
             steps = [(a, o) for a in range(pc["nA"]) for o in range(pc["nO"])]
             bad_mirror = None
             bad_spec = None
             for L, (mir, spec) in enumerate(tabs, start=1):
-                real = [vlib.frac(x) if is_num(x) else None for x in res["hist"][str(L)]]
+                real = [vlib.frac(x) if is_num(x) else None for x in hist_src[str(L)]]
                 hs = [[]]
                 for _ in range(L):
                     hs = [[st] + h for st in steps for h in hs]
@@ -980,7 +1004,8 @@ def run(ctx):
                 hist_defect += 1
                 bad_spec["clause"] = "executing the controller object produces action/observation histories with exactly the probabilities the controller defines"
                 if bad_mirror:
-                    report("C09:controller:history-probability-wrong", {"case": case, "worst": bad_spec, "first_mirror_difference": bad_mirror}, found=True)
+                    report("C09:controller:history-probability-wrong", {"case": case, "worst": bad_spec, "first_mirror_difference": bad_mirror,
+                                                                        "after_in_place_edit_of_the_objects_tables": bool((extra or {}).get("after_edit"))}, found=True)
                 elif shared or det:
                     report("C09:internal:history-theorem-contradicted", {"case": case, "worst": bad_spec}, found=False)
                 else:
